@@ -139,7 +139,6 @@ theorem nvarT_entry_step (pol : UInt8) (fuel : Nat)
               · refine post_bind' (nvIdentT_post s _ _ _ _ _ (by rw [hvl]; omega) rfl (by simp [hvl]) rfl rfl
                   hinv.2.1) ?_
                 rintro id m2 ⟨hd1, hd2, hsz, hbuf, hat, hfit, hgl, hgi⟩
-                refine post_bind (post_sliceFromG (by omega) ?_)
                 have hnode : ∀ nested, NvOptWf nested → NvNodeWf (.mk id.e id.gidx id.cps nested) := by
                   intro nested hn
                   simp only [NvNodeWf]
@@ -147,13 +146,17 @@ theorem nvarT_entry_step (pol : UInt8) (fuel : Nat)
                   rw [hat]
                   exact hgi
                 split
-                · refine post_bind' (ihStore _ _ (by simp [hvl]; omega)) ?_
-                  intro ns m3 hns
-                  refine post_pure ⟨by simp [NvNode.e, hsz, hvl]; omega, by simp [NvNode.e, hsz, hvl]; omega, hfit, hgl, ?_⟩
-                  apply hnode
-                  cases ns with
-                  | none => trivial
-                  | some t => exact hns
+                · refine post_bind (post_sliceFromG (by omega) ?_)
+                  split
+                  · refine post_bind' (ihStore _ _ (by simp [hvl]; omega)) ?_
+                    intro ns m3 hns
+                    refine post_pure ⟨by simp [NvNode.e, hsz, hvl]; omega, by simp [NvNode.e, hsz, hvl]; omega, hfit, hgl, ?_⟩
+                    apply hnode
+                    cases ns with
+                    | none => trivial
+                    | some t => exact hns
+                  · exact post_pure ⟨by simp [NvNode.e, hsz, hvl]; omega, by simp [NvNode.e, hsz, hvl]; omega, hfit, hgl,
+                      hnode none trivial⟩
                 · exact post_pure ⟨by simp [NvNode.e, hsz, hvl]; omega, by simp [NvNode.e, hsz, hvl]; omega, hfit, hgl,
                     hnode none trivial⟩
 
@@ -179,12 +182,14 @@ theorem nvarT_loop_step (pol : UInt8) (fuel : Nat)
       simp only [EntryTQ] at hr
       obtain ⟨h10, hsz, hfit', hgl, hwf⟩ := hr
       rw [hel] at hsz
-      refine post_bind' (ihLoop _ _ ⟨hlen, hfit', rfl⟩ ?_) ?_
-      · simp only []
-        unfold GuidsFit at hfit hfit'
-        omega
-      · rintro ⟨s', rest⟩ m2 hrest
-        exact post_pure (by simp only [NvNodesWf]; exact ⟨hwf, hrest⟩)
+      split
+      · exact post_err
+      · refine post_bind' (ihLoop _ _ ⟨hlen, hfit', rfl⟩ ?_) ?_
+        · simp only []
+          unfold GuidsFit at hfit hfit'
+          omega
+        · rintro ⟨s', rest⟩ m2 hrest
+          exact post_pure (by simp only [NvNodesWf]; exact ⟨hwf, hrest⟩)
   · exact post_pure (by simp [NvNodesWf])
 
 theorem nvarT_store_step (pol : UInt8) (fuel : Nat)
